@@ -49,6 +49,14 @@ func runC05(c *core.Ctx) {
 		}
 	}
 	cfg := rig.DuoCfg{AddrsA: c01Addrs("10.0.1", k.nA), AddrsB: c01Addrs("10.0.2", k.nB), OptsA: opts(), OptsB: opts()}
+	if !part2 && c.T.Bias(1, 4, "binding-request-handler") {
+		// the application has a Binding request handler that accepts every request it is shown (it then selects
+		// the pair): a role-conflicting request is not a connectivity check and must never get that far
+		accept := func(_ *stun.Message, _, _ ice.Candidate, _ *ice.CandidatePair) bool { return true }
+		cfg.OptsA = append(cfg.OptsA, ice.WithBindingRequestHandler(accept))
+		cfg.OptsB = append(cfg.OptsB, ice.WithBindingRequestHandler(accept))
+		c.Knob("bindingRequestHandler", true)
+	}
 	if k.aliasA {
 		cfg.AliasA = "198.51.100.1"
 	}
